@@ -8,6 +8,8 @@ use crate::model::synth::Rng;
 use crate::{ensure, fail, selftest};
 use ruzstd::verif_hooks as hk;
 use serde_json::{json, Value};
+use proptest::prelude::*;
+use serde::{Deserialize, Serialize};
 
 const STAGES: [&str; 15] = [
     "extra_bits_triple",
@@ -655,8 +657,119 @@ fn check_forbidden_block(o: &crate::props::c05::OverLong, ctx: &mut CaseCtx) -> 
     Ok(())
 }
 
+/// "the compressor's and decompressor's mappings are mutual inverses" through the real writer: a
+/// scripted matcher hands the block compressor sequences whose values cover the wide codes (offsets
+/// of up to 23 bits, reached at every bit position of the stream), the specification walker and
+/// this crate's decoder read the frame back: same (literal length, match length, offset) triples,
+/// same content. The data are one repeated byte (any distance is a valid match) with a different
+/// first byte per block (so that no block is stored as RLE).
+#[derive(Clone, Debug, Serialize, Deserialize)]
+pub struct WrittenCase {
+    pub seed: u32,
+    pub blocks: u8,
+    pub per_block: u16,
+    /// 0: offsets log-uniform over everything reachable; 1: only the widest reachable; 2: narrow (< 2^16)
+    pub far: u8,
+    pub long_lengths: bool,
+}
+
+fn written_strategy() -> impl Strategy<Value = WrittenCase> {
+    (any::<u32>(), prop_oneof![3 => 2u8..=12, 2 => 12u8..=40, 1 => 40u8..=70], prop_oneof![1u16..=50, 50u16..=3000], 0u8..=2, prop::bool::weighted(0.2))
+        .prop_map(|(seed, blocks, per_block, far, long_lengths)| WrittenCase { seed, blocks, per_block, far, long_lengths })
+}
+
+fn check_written(case: &WrittenCase, ctx: &mut CaseCtx) -> CaseResult {
+    use crate::model::synth::Rng;
+    use crate::props::c16::{BlockScript, Script, ScriptedMatcher, Seq};
+    use ruzstd::encoding::{CompressionLevel, FrameCompressor};
+    const BLK: usize = 128 * 1024;
+    let nb = (case.blocks as usize).max(2);
+    let mut data = vec![b'a'; nb * BLK - (case.seed as usize % 1000)];
+    for k in 0..nb {
+        data[k * BLK] = b'b';
+    }
+    let mut r = Rng(case.seed as u64 | 1);
+    let mut blocks = vec![];
+    let mut widest = 0u32;
+    for k in 0..nb {
+        let start = k * BLK;
+        let end = ((k + 1) * BLK).min(data.len());
+        let mut pos = start;
+        let mut seqs: Vec<Seq> = vec![];
+        while seqs.len() < case.per_block as usize {
+            let ll = if seqs.is_empty() { 1 + r.below(3) as usize } else { r.below(4) as usize };
+            let ml = if case.long_lengths && r.below(8) == 0 { 3 + r.below(70_000) as usize } else { 8 + r.below(60) as usize };
+            let p = pos + ll;
+            if p + ml > end || p < 2 {
+                break;
+            }
+            let top = 63 - (p as u64).leading_zeros() as u64; // p >= 2^top
+            let bits = match case.far % 3 {
+                0 => r.below(top + 1),
+                1 => top.saturating_sub(r.below(2)),
+                _ => r.below(top.min(15) + 1),
+            };
+            let lo = 1u64 << bits;
+            let mut d = (lo + r.below(lo)).min(p as u64 - 1).max(1) as usize;
+            // the source run must not contain a block's first byte
+            let s = p - d;
+            let e = s + ml.min(d);
+            let m = s.div_ceil(BLK) * BLK;
+            if m < e {
+                if p <= m + 1 {
+                    break;
+                }
+                d = p - (m + 1);
+            }
+            widest = widest.max(32 - (d as u32 + 3).leading_zeros());
+            seqs.push(Seq { ll: ll as u32, ml: ml as u32, off: d as u32 });
+            pos = p + ml;
+        }
+        blocks.push(BlockScript { len: end - start, seqs });
+    }
+    let script = std::rc::Rc::new(Script { data, blocks, window: (nb * BLK) as u64 });
+    let (matcher, desync) = ScriptedMatcher::new(script.clone());
+    let mut comp: FrameCompressor<&[u8], Vec<u8>, ScriptedMatcher> = FrameCompressor::new_with_matcher(matcher, CompressionLevel::Fastest);
+    comp.set_source(&script.data[..]);
+    comp.set_drain(Vec::new());
+    comp.compress();
+    let out = comp.take_drain().unwrap();
+    if desync.get().is_some() {
+        return Err(Failure::new("machinery", "the compressor did not follow the matcher protocol (C16's subject)"));
+    }
+    let info = frame::walk(&out, &Default::default()).map_err(|e| Failure::new("written_sequences_unreadable", format!("the specification cannot read the frame the compressor wrote: {e}; script of {} blocks, seed {}", nb, case.seed)))?;
+    let data_blocks: Vec<&frame::Block> = info.blocks.iter().filter(|b| b.regen > 0).collect();
+    ensure!(data_blocks.len() == script.blocks.len(), "written_block_count", "{} non-empty blocks for {} scripted ones", data_blocks.len(), script.blocks.len());
+    let mut compared = 0usize;
+    for (i, (b, sc)) in data_blocks.iter().zip(script.blocks.iter()).enumerate() {
+        if b.btype != 2 {
+            continue;
+        }
+        let got: Vec<Seq> = b.seq.as_ref().map(|q| q.seqs.iter().map(|x| Seq { ll: x.ll, ml: x.ml, off: x.offset }).collect()).unwrap_or_default();
+        if got != sc.seqs {
+            let at = got.iter().zip(sc.seqs.iter()).take_while(|(a, b)| a == b).count();
+            fail!("written_sequence_differs", "block #{i}: sequence #{at} was handed to the compressor as {:?} and is read back from the frame as {:?} ({} of {} sequences)", sc.seqs.get(at), got.get(at), got.len(), sc.seqs.len());
+        }
+        compared += got.len();
+    }
+    let mut dec = ruzstd::decoding::FrameDecoder::new();
+    let mut buf = vec![0u8; script.data.len() + 16];
+    match dec.decode_all(&out, &mut buf) {
+        Ok(n) => ensure!(buf[..n] == script.data[..], "written_frame_wrong_data", "the decoder restores {} bytes that differ from the {} bytes compressed", n, script.data.len()),
+        Err(e) => fail!("written_frame_rejected", "the decoder rejects the frame the compressor wrote: {e}"),
+    }
+    ctx.feat_if(widest >= 18, "offset_value:18+_bits");
+    ctx.feat_if(widest >= 21, "offset_value:21+_bits");
+    ctx.feat_if(widest >= 23, "offset_value:23+_bits");
+    ctx.feat_if(compared >= 10_000, "sequences_compared:10000+");
+    ctx.feat_if(case.long_lengths, "lengths:up_to_70000");
+    ctx.nontrivial = compared > 0 && widest >= 17;
+    ctx.set_hash_bytes(&[&case.seed.to_le_bytes(), &[case.blocks, case.far], &case.per_block.to_le_bytes()]);
+    Ok(())
+}
+
 pub fn run(eng: &Engine) {
-    eng.set_rule("exhaustive enumeration of finite sub-domains (each listed with its size); every enumerated value is a real, distinct case (counted by index, not hashed); sampled sub-domains are marked exhaustive=false; plus one generated stage (forbidden_block_sizes): synthesized frames with a compressed block whose regenerated size lies around / far above 128 KiB (reached through max-length matches, 20-bit literals, or literals no sequence consumes) - above the limit the decoder must refuse, at or below it decode correctly");
+    eng.set_rule("exhaustive enumeration of finite sub-domains (each listed with its size); every enumerated value is a real, distinct case (counted by index, not hashed); sampled sub-domains are marked exhaustive=false; plus two generated stages: (compressor_written_sequences) sequence lists with offsets of up to 23 bits and lengths up to 70 000 handed to the real block compressor by a scripted matcher over one-byte-value data, read back from the frame by the specification walker (same triples) and by the decoder (same content); (forbidden_block_sizes): synthesized frames with a compressed block whose regenerated size lies around / far above 128 KiB (reached through max-length matches, 20-bit literals, or literals no sequence consumes) - above the limit the decoder must refuse, at or below it decode correctly");
     eng.assume("tables and rules transcribed from RFC 8878 in the harness, cross-checked at start against the constant arrays in libzstd 1.5.7's source");
     eng.assume("reserved patterns (reserved descriptor bit, reserved mode bits) are not asserted");
     eng.assume("frame-header writer domain: matcher windows 1..=2^41 (larger windows are not representable by the writer's exponent-only descriptor)");
@@ -668,11 +781,16 @@ pub fn run(eng: &Engine) {
     }
     let n = eng.tier.pick(3_000, 60_000);
     eng.run_stage("forbidden_block_sizes", n, crate::props::c05::overlong_strategy, check_forbidden_block);
+    let nw = eng.tier.pick(1_500, 30_000);
+    eng.run_stage("compressor_written_sequences", nw, written_strategy, check_written);
 }
 
 pub fn replay(eng: &Engine, stage: &str, case: &Value) -> CaseResult {
     if stage == "forbidden_block_sizes" {
         return eng.replay_value(stage, case, check_forbidden_block);
+    }
+    if stage == "compressor_written_sequences" {
+        return eng.replay_value(stage, case, check_written);
     }
     let i = case["index"].as_u64().ok_or_else(|| Failure::new("machinery", "C14 case must carry an index"))?;
     let mut ctx = CaseCtx::default();
